@@ -194,6 +194,11 @@ func (g *group) wrapExcessAliases(grid [][]Candidate, descriptions []string) {
 		breakeven += width + 1
 	}
 
+	// At least one value per row, however wide the first column is.
+	if maxColumns < 1 {
+		maxColumns = 1
+	}
+
 	var rows [][]Candidate
 
 	for rowIndex := range grid {
